@@ -68,6 +68,7 @@ func TestGovcBoundedPacers(t *testing.T) {
 	}
 	rng := rand.New(rand.NewSource(seed))
 	var ps []schedPacer
+	fromRandom := false
 	addSine := func(sp SinePacer) {
 		r := (float64(sp.Amp.Freq) / float64(sp.Amp.Per)) / (float64(sp.Mean.Freq) / float64(sp.Mean.Per))
 		m := float64(sp.Mean.Freq)/float64(sp.Mean.Per) + float64(sp.Amp.Freq)/float64(sp.Amp.Per)
@@ -78,8 +79,11 @@ func TestGovcBoundedPacers(t *testing.T) {
 		if hpp < 1000 {
 			// one regime, one numerical defect: the five fixed-point iterations of SinePacer.Pace do not
 			// converge where the rate changes much within one inter-hit interval
-			class = "sine/trough-hits-per-period<1000"
+			class = "sine/coarse:" + fmt.Sprintf("%v", sp)
 			coarse = true
+			if fromRandom {
+				return // the coarse regime is explored on the deterministic grid only (known findings are listed per configuration)
+			}
 		}
 		ps = append(ps, schedPacer{name: fmt.Sprintf("%v", sp), class: class, p: sp, s: sineSched(sp), maxNs: m, behind: true, coarse: coarse})
 	}
@@ -113,6 +117,12 @@ func TestGovcBoundedPacers(t *testing.T) {
 			addLin(LinearPacer{StartAt: Rate{Freq: start, Per: time.Second}, Slope: slope})
 		}
 	}
+	// slow, deep sines (rate changes a lot within one hit interval)
+	for _, o := range []float64{MeanUp, Peak, MeanDown, Trough, 4.0} {
+		addSine(SinePacer{Period: time.Second, Mean: Rate{Freq: 1, Per: time.Second}, Amp: Rate{Freq: 9, Per: 10 * time.Second}, StartAt: o})
+		addSine(SinePacer{Period: 10 * time.Second, Mean: Rate{Freq: 5, Per: time.Second}, Amp: Rate{Freq: 4, Per: time.Second}, StartAt: o})
+	}
+	fromRandom = true
 	for i := 0; i < nrand; i++ {
 		mean := 1 + rng.Intn(1000000)
 		ra := ratios[rng.Intn(len(ratios))] * rng.Float64()
@@ -127,6 +137,9 @@ func TestGovcBoundedPacers(t *testing.T) {
 	total := map[string]int{}
 	for _, sp := range ps {
 		for _, stall := range []string{"none", "random", "one-long"} {
+			if sp.coarse && stall == "random" {
+				continue // keep the coarse regime deterministic
+			}
 			cases++
 			total[sp.class]++
 			bad := map[string]bool{}
@@ -184,7 +197,7 @@ func TestGovcBoundedPacers(t *testing.T) {
 				if float64(h) > sRel+1+tol {
 					key := sp.class + "/ahead-by-more-than-one"
 					if sp.coarse {
-						key = sp.class + "/off-schedule-by-more-than-one"
+						key = sp.class + "/ahead"
 					}
 					if !bad[key] {
 						bad[key] = true
@@ -200,7 +213,7 @@ func TestGovcBoundedPacers(t *testing.T) {
 					if sRel-float64(h) > slack {
 						key := sp.class + "/behind-by-more-than-one"
 						if sp.coarse {
-							key = sp.class + "/off-schedule-by-more-than-one"
+							key = sp.class + "/behind"
 						}
 						if !bad[key] {
 							bad[key] = true
